@@ -454,6 +454,12 @@ void carquet_bit_writer_write_bits(carquet_bit_writer_t* writer,
     if (num_bits == 0) return;
     if (num_bits > 32) num_bits = 32;
 
+    /* Up to 55 bits can be pending: make room so that the new bits fit in
+     * the 64-bit buffer */
+    if (writer->buffer_bits > 32) {
+        flush_buffer(writer);
+    }
+
     uint32_t mask = num_bits == 32 ? ~0U : (1U << num_bits) - 1;
     writer->buffer |= (uint64_t)(value & mask) << writer->buffer_bits;
     writer->buffer_bits += num_bits;
